@@ -14,7 +14,7 @@ import (
 // whose Read never delivers.
 type zzStuck struct{}
 
-func (zzStuck) Read(ctx context.Context) (*Rpc, error) { <-ctx.Done(); return nil, ctx.Err() }
+func (zzStuck) Read(ctx context.Context) (*Rpc, error)  { <-ctx.Done(); return nil, ctx.Err() }
 func (zzStuck) Write(ctx context.Context, r *Rpc) error { <-ctx.Done(); return ctx.Err() }
 
 func zzEnv(src, dst string, id uint64) *Rpc {
@@ -23,10 +23,14 @@ func zzEnv(src, dst string, id uint64) *Rpc {
 
 // H_C17_conc: proxy scenarios under all schedules.
 // scenario 0: context cancelled at an arbitrary point while A sends to B: Serve returns and no
-//   goroutine of the proxy is left.
+//
+//	goroutine of the proxy is left.
+//
 // scenario 1: A re-attaches under its name (new connection) and the old connection's read
-//   fails (either order): traffic for A reaches the new connection; exactly one disconnect
-//   report; the new connection stays attached.
+//
+//	fails (either order): traffic for A reaches the new connection; exactly one disconnect
+//	report; the new connection stays attached.
+//
 // scenario 2: C is a stuck writer; traffic A->C must not delay A->B.
 // scenario 3: A's connection read fails: removed and reported exactly once.
 // scenario 4: destination D is not attached and its dial fails: reported, A->B unaffected.
